@@ -209,5 +209,58 @@ def _(v):
     except ValueError:
         got = True
     v.prove("underdetermined_refused_when_disallowed", got)
+    # compositions with four significant decimals must be balanced exactly (no rationalisation tolerance)
+    import fractions
+    from chempy.chemistry import Substance
+    subs = {k: Substance.from_formula(k) for k in ("Ca2.832Fe0.6285Mg5.395(CO3)6", "O2", "CaO", "FeO", "MgO", "CO2")}
+    r, p = bs({"Ca2.832Fe0.6285Mg5.395(CO3)6", "O2"}, {"CaO", "FeO", "MgO", "CO2"}, substances=subs)
+    coef = {**{k: -fractions.Fraction(int(x)) for k, x in r.items()}, **{k: fractions.Fraction(int(x)) for k, x in p.items()}}
+    resid = {}
+    for k, c in coef.items():
+        for el, n in subs[k].composition.items():
+            resid[el] = resid.get(el, 0) + c * fractions.Fraction(repr(float(n)))
+    v.prove("four_decimal_compositions_balanced_exactly", all(x == 0 for x in resid.values()), "residuals %s" % {k: str(x) for k, x in resid.items() if x})
+    # more than ten species in the 'smallest integers' mode (solver variable order vs matrix columns)
+    reac = ["A%d" % i for i in range(1, 7)]
+    prod = ["B%d" % i for i in range(1, 7)]
+    comp = {}
+    for i, (a, b) in enumerate(zip(reac, prod)):
+        comp[a] = Substance(a, composition={i + 1: 1, 20: 1})
+        comp[b] = Substance(b, composition={i + 1: 1} if i < 5 else {i + 1: 1, 20: 6})
+    # element i: a_i = b_i; element 20: a_1+..+a_6 = 6 b_6  ->  the only positive solution of minimal sum is all ones
+    try:
+        r12, p12 = bs(reac, prod, substances=comp, underdetermined=None)
+        tot = {}
+        for k, c in list(r12.items()):
+            for el, n in comp[k].composition.items():
+                tot[el] = tot.get(el, 0) - c * n
+        for k, c in list(p12.items()):
+            for el, n in comp[k].composition.items():
+                tot[el] = tot.get(el, 0) + c * n
+        ok12 = all(x == 0 for x in tot.values()) and all(int(c) == 1 for c in list(r12.values()) + list(p12.values()))
+        det = "%s -> %s" % (dict(r12), dict(p12))
+    except Exception as e:
+        ok12, det = False, repr(e)
+    try:
+        rT, pT = bs(reac, prod, substances=comp, underdetermined=True)
+        sameT = "answered"
+    except Exception as e:
+        sameT = repr(e)
+    v.prove("twelve_species_smallest_integers_mode", ok12, det + " | mode True: " + sameT)
+    # single ray with eleven species and pairwise different coefficients: the modes must agree on it
+    packs = [12, 4, 30, 20, 8, 6, 50, 25, 10, 16]
+    recipe = [3, 2, 4, 2, 1, 1, 1, 1, 1, 1]
+    comp11 = {"R%02d" % i: Substance("R%02d" % i, composition={i + 1: n}) for i, n in enumerate(packs)}
+    comp11["P"] = Substance("P", composition={i + 1: n for i, n in enumerate(recipe)})
+    want = {"R%02d" % i: fractions.Fraction(1200 * q, n) for i, (n, q) in enumerate(zip(packs, recipe))}
+    res11 = {}
+    for mode in (None, False, True):
+        try:
+            r11, p11 = bs(sorted(k for k in comp11 if k != "P"), ["P"], substances=comp11, underdetermined=mode)
+            res11[mode] = ({k: fractions.Fraction(int(x)) for k, x in r11.items()} == want and {k: int(x) for k, x in p11.items()} == {"P": 1200},
+                           "%s -> %s" % (dict(r11), dict(p11)))
+        except Exception as e:
+            res11[mode] = (False, repr(e))
+    v.prove("eleven_species_single_ray_modes_agree", all(ok for ok, _ in res11.values()), "; ".join("%s: %s" % (m, d) for m, (ok, d) in res11.items() if not ok))
     r, p = bs(["H3.5", "HO2Cl3.5"], ["HO2.5", "H2.5Cl"])
     v.prove("fractional_compositions_balanced_exactly", (dict(r), dict(p)) == ({"H3.5": 171, "HO2Cl3.5": 70}, {"HO2.5": 56, "H2.5Cl": 245}))
